@@ -45,3 +45,23 @@ def chunk_loop(seg_ordinal, anchor_ordinal):
 
 for fn in ("lot_vectors_sparse_internal", "lot_vectors_dense_internal"):
     CONTRACTS[F + fn + "#chunks"] = chunk_loop(1, 1)
+
+
+def inner_chunk_loop(seg_ordinal, anchor_ordinal, size_name):
+    """`for j in range(n_chunks):` nested in a block loop: the chunks partition [block_start, block_end)."""
+    return dict(
+        locals={"block_start": "int", "block_end": "int", "n_chunks": "int", size_name: "int"},
+        requires=["0 <= block_start and block_start <= block_end", "%s >= 1" % size_name, "n_chunks == (block_end - block_start) // %s + 1" % size_name],
+        segment=dict(start="for j in range(n_chunks):", start_ordinal=seg_ordinal, end=None, keep=["chunk_start", "chunk_end"]),
+        ghost_init="covered = block_start",
+        ghost_after=[("@assign:chunk_end", anchor_ordinal,
+                      "assert chunk_start == covered\nassert chunk_start <= chunk_end and chunk_end <= block_end\ncovered = chunk_end")],
+        ensures=["covered == block_end"],
+        loops={"@segment": dict(invariant=["covered == min(block_end, block_start + j * %s)" % size_name,
+                                           "block_start + j * %s <= block_end or j == n_chunks" % size_name])},
+    )
+
+
+CONTRACTS[F + "SinkhornVectorizer.transform#chunks"] = inner_chunk_loop(1, 1, "self.chunk_size")
+CONTRACTS[F + "WassersteinVectorizer.transform#sinkhorn_chunks"] = inner_chunk_loop(1, 1, "self.sinkhorn_chunk_size")
+CONTRACTS[F + "sinkhorn_vectors_sparse#chunks"] = inner_chunk_loop(1, 2, "chunk_size")
